@@ -252,6 +252,81 @@ theorem decodeBatch_last_wins (b : List Entry) (k : String) :
   rw [lookup_decodeBatch_aux]
   cases List.find? (fun e => decide (e.key = k)) b.reverse <;> simp
 
+/-! ### histories: the newest unexpired offer wins -/
+
+theorem foldl_merge_ge (now : Int) (l : List Entry) (s : State) (k : String) (p : Entry)
+    (h : lookup s k = some p) : ∃ q, lookup (l.foldl (merge now) s) k = some q ∧ p.ts ≤ q.ts := by
+  induction l generalizing s p with
+  | nil => exact ⟨p, h, Int.le_refl _⟩
+  | cons e l ih =>
+    obtain ⟨q, hq, hpq⟩ := merge_monotone now s e k p h
+    obtain ⟨r, hr, hqr⟩ := ih (merge now s e) q hq
+    exact ⟨r, hr, by omega⟩
+
+/-- After any sequence of merges, the entry held for a key is at least as new as
+    every offered version of that key that was unexpired when offered. -/
+theorem fold_merge_newest (now : Int) (l : List Entry) (s : State) (x : Entry)
+    (hx : x ∈ l) (hlive : now ≤ x.exp) :
+    ∃ q, lookup (l.foldl (merge now) s) x.key = some q ∧ x.ts ≤ q.ts := by
+  induction l generalizing s with
+  | nil => simp at hx
+  | cons e l ih =>
+    simp only [List.mem_cons] at hx
+    rcases hx with hx | hx
+    · subst hx
+      -- after merging x itself the slot holds x or something at least as new
+      have hslot : ∃ q, lookup (merge now s x) x.key = some q ∧ x.ts ≤ q.ts := by
+        rw [lookup_merge_upd]; simp only [if_true]
+        unfold upd
+        have : ¬ x.exp < now := by omega
+        simp only [this, if_false]
+        cases lookup s x.key with
+        | none => exact ⟨x, rfl, Int.le_refl _⟩
+        | some p =>
+          simp only
+          by_cases hp : p.ts < x.ts
+          · simp only [hp, if_true]; exact ⟨x, rfl, Int.le_refl _⟩
+          · simp only [hp, if_false]; exact ⟨p, rfl, by omega⟩
+      obtain ⟨q, hq, hxq⟩ := hslot
+      obtain ⟨r, hr, hqr⟩ := foldl_merge_ge now l (merge now s x) x.key q hq
+      exact ⟨r, hr, by omega⟩
+    · exact ih (merge now s e) hx
+
+/-- … and it is one of the versions the instance held or was offered: merging
+    invents nothing. -/
+theorem fold_merge_from_offers (now : Int) (l : List Entry) (s : State) (k : String) (q : Entry)
+    (h : lookup (l.foldl (merge now) s) k = some q) : lookup s k = some q ∨ q ∈ l := by
+  induction l generalizing s with
+  | nil => left; exact h
+  | cons e l ih =>
+    rcases ih (merge now s e) h with h1 | h1
+    · rcases merge_result now s e k with h2 | h2
+      · left; rw [← h2]; exact h1
+      · right; rw [h2.1] at h1
+        have : q = e := by simpa using h1.symm
+        subst this; simp
+    · right; exact List.mem_cons_of_mem _ h1
+
+/-- `Log.Merge` applies `merge` to the decoded batch, entry by entry. -/
+theorem mergeBatch_fst (now : Int) (ov : Bool) (s : State) (b : List Entry) :
+    (mergeBatch now ov s b).1 = ((decodeBatch b).map Prod.snd).foldl (merge now) s := by
+  unfold mergeBatch
+  generalize decodeBatch b = d
+  have : ∀ (acc : State × Nat),
+      (d.foldl (fun (acc : State × Nat) kv =>
+        if accepts now acc.1 kv.2 then (put acc.1 kv.2.key kv.2, if ov then acc.2 else acc.2 + 1) else acc) acc).1
+      = (d.map Prod.snd).foldl (merge now) acc.1 := by
+    induction d with
+    | nil => intro acc; rfl
+    | cons kv rest ih =>
+      intro acc
+      simp only [List.foldl_cons, List.map_cons]
+      rw [ih]
+      congr 1
+      unfold merge
+      split <;> simp_all
+  exact this (s, 0)
+
 /-! ### non-vacuity -/
 
 example : accepts 10 [] { key := "g:r", ts := 5, exp := 20, firing := [1], resolved := [], data := "" } = true := by
